@@ -58,6 +58,9 @@ def run(ctx, P):
     tf = P.get("tf")
     cs = mk_candles(ctx, n, start=GRID0 + 60)
     kw = C01.common_kw(P)
+    full = build_any(spec, candles=clone(cs), **kw)
+    full.calculate()
+    fs = snap(full.candles)
     # (a) live history: one by one, and in chunks of two; snapshot after every append
     for step in (1, 2):
         src = clone(cs)
@@ -74,10 +77,9 @@ def run(ctx, P):
             closed = s[:-1] if tf else s
             ctx.require(f"no-candle-lost[step={step}]", len(closed) <= len(final), f"snapshot {t} has {len(closed)} closed candles, final has {len(final)}")
             ctx.equal(f"closed-candles-final[step={step}]", closed, final[:len(closed)])
+            # "... whether it was computed live or in a batch over a longer list"
+            ctx.equal(f"closed-candles-shown-live==batch-over-the-full-list[step={step}]", closed, fs[:len(closed)])
     # (b) batch over a prefix vs batch over everything
-    full = build_any(spec, candles=clone(cs), **kw)
-    full.calculate()
-    fs = snap(full.candles)
     for k in range(1, n):
         pre = build_any(spec, candles=clone(cs)[:k], **kw)
         pre.calculate()
